@@ -510,6 +510,10 @@ def _replay_real_calls(args, label, nthreads=2, P=2):
             _run_scenario("H", sc[0], sc[1], sc[2], schedule, nthreads)
     except engine.CheckFailed as e:
         return "reproduced on real threads (%s)" % e.label if e.label == label else "real threads fail a different check: %s" % e.label
+    except Exception as e:  # noqa - an exception escaping the real code on real threads
+        if label == "unexpected-exception":
+            return "reproduced on real threads (unexpected exception %s)" % type(e).__name__
+        return "real threads raise %s instead of failing %s" % (type(e).__name__, label)
     return "not-reproduced"
 
 
@@ -762,6 +766,10 @@ def _replay_real_cache(args, label):
                     a["na"], a["nb"], schedule)
     except engine.CheckFailed as e:
         return "reproduced on real threads (%s)" % e.label if e.label == label else "real threads fail a different check: %s" % e.label
+    except Exception as e:  # noqa - an exception escaping the real code on real threads
+        if label == "unexpected-exception":
+            return "reproduced on real threads (unexpected exception %s)" % type(e).__name__
+        return "real threads raise %s instead of failing %s" % (type(e).__name__, label)
     return "not-reproduced"
 
 
